@@ -163,7 +163,9 @@ def eval_expr(e: Any, row: Dict[str, Any]) -> Any:
     """e: ["col", name] | ["const", v] | ["add"|"sub"|"mul", e1, e2] | ["cat", e1, e2]; None propagates."""
     op = e[0]
     if op == "col":
-        return row.get(e[1])
+        if e[1] not in row:
+            raise KeyError(e[1])  # like data[col] in a hand-written feature group
+        return row[e[1]]
     if op == "const":
         return e[1]
     a = eval_expr(e[1], row)
